@@ -3,7 +3,9 @@
 Case grammar (first token = operation; see harness/C04.cpp and ocaml/C04_driver.ml):
   matrix argument  = table: `rows` then each row as a list `n x1 .. xn`  (goes through Matrix(vector<vector<double>>))
   vector argument  = list `n x1 .. xn`
-  block grid       = `GR` then per grid row `GC` and GC blocks `r c e11 .. erc`
+  block grid       = `GR` then per grid row `GC` and GC blocks `r c e11 .. erc`   (operation `block`; blocks with 0 rows / columns allowed)
+                     `blockm GR GC_1 M .. GC_2 M ..` is the same constructor on a grid of matrix ARGUMENTS (tables; with `hist`
+                     objects after a call history; in a session also `@j` = a live object, the same one in several places)
 Output: matrix `M rows cols e11 e12 ..`, vector `V n e1 ..`, scalars as hex floats, booleans 0/1, `EXIT`.
 `m_show T` / `v_show L` print the object as Rows()/Columns()/operator[] (Size()/operator[]) see it; `v_at L i` is v[i].
 
@@ -242,7 +244,15 @@ def life_predicates(c, io):
                 k = s.int(); vs[k] = vec_step(s, s.word(), vs[k], v_operand)
             else:
                 op = s.word(); args = []
-                for a in OBS_SIG[op]:
+                if op == "blockm":
+                    GR = s.int(); args.append(str(GR))
+                    for _ in range(GR):
+                        GC = s.int(); args.append(str(GC))
+                        for _ in range(GC):
+                            R, C, M = m_operand()
+                            if R == 0 or C == 0: raise Skip
+                            args.append(mtab(M))
+                for a in OBS_SIG.get(op, ""):
                     if a == "M":
                         R, C, M = m_operand()
                         if R == 0 or C == 0: raise Skip
@@ -370,6 +380,34 @@ def rmat(rng, m, n, kind="mixed"):
 
 
 def rvec(rng, n, kind="mixed"): return rmat(rng, 1, n, kind)[0] if n else []
+
+
+# sizes at which the SQUARE of an entry leaves the double range (what Norm() and Dot() accumulate): sqrt of the smallest positive
+# double, of the smallest normal double and of DBL_MAX, with a ladder of neighbours, on top of the ladder of absolute sizes
+SQ_POINTS = [2.0 ** -538, 2.0 ** -537, 2.0 ** -511, 2.0 ** 511, 2.0 ** 512]
+OPERAND_SCALES = ABS_LADDER + [1e-180, 1e-170, 1e-165, 1e-155, 1e150, 1e154, 1e160] + \
+    [ulps(x, d * u) for x in SQ_POINTS for d in (-1, 1) for u in (0, 1, 1000, 2 ** 33, 2 ** 50)]
+BLOCK_KINDS = ["int", "mixed", "mixed", "wide", "tiny", "huge", "one-scale", "one-scale", "one-scale", "single", "zero", "negzero"]
+
+
+def whole_operand(rng, r, c, kind):
+    """an r x c operand all of whose entries are of one character: an entry kind of `entry`, or
+       one-scale: (small integers, zeros, uniform numbers) times one size of OPERAND_SCALES - an operand that is small / large as a whole
+       single:    zeros and one entry of such a size;   zero / negzero: all +0.0 / all -0.0"""
+    if kind in ("zero", "negzero"): return [[0.0 if kind == "zero" else -0.0] * c for _ in range(r)]
+    if kind in ("one-scale", "single"):
+        sc = rng.choice(OPERAND_SCALES)
+        def e():
+            x = rng.choice([float(rng.randint(-3, 3)), rng.choice([-1.0, 1.0]), rng.uniform(-2, 2), 0.0]) * sc
+            return x if math.isfinite(x) else math.copysign(sc, x)
+        if kind == "one-scale":
+            M = [[e() for _ in range(c)] for _ in range(r)]
+            if r and c and all(x == 0 for row in M for x in row): M[rng.randrange(r)][rng.randrange(c)] = rng.choice([-1, 1]) * sc
+            return M
+        M = [[0.0] * c for _ in range(r)]
+        if r and c: M[rng.randrange(r)][rng.randrange(c)] = rng.choice([-1, 1]) * sc
+        return M
+    return rmat(rng, r, c, kind)
 
 
 def nudge(rng, x, step):
@@ -593,7 +631,7 @@ def coincide(rng, S, how):
 #      the session is closed by `undefined()`.
 M_PROBES = ["return_column", "return_column", "return_row", "m_show", "m_atc", "m_at", "transpose", "trace", "m_norm", "square",
             "symmetric", "antisymmetric", "diagonal", "sub_matrix", "m_eq", "sum", "prod", "prod-left", "law_trprod", "law_mulid",
-            "law_trtr", "scalar", "matvec", "vecmat"]
+            "law_trtr", "scalar", "matvec", "vecmat", "blockm", "blockm"]
 V_PROBES = ["v_show", "v_atc", "v_at", "v_norm", "dot", "vsum", "v_eq", "outer", "vscalar", "cross"]
 
 
@@ -683,6 +721,15 @@ class Session:
             f = pick(["m_prod_s", "m_op_mul_s", "m_div", "m_op_div", "s_mul_m"]); x = hx(float(1 + sp % 7) * 0.5)
             st = f"s_mul_m {x} {me}" if f == "s_mul_m" else f"{f} {me} {x}"
         elif name == "matvec": st = f"{pick(['m_prod_v', 'm_op_mul_v', 'law_matvec'])} {me} {s.other_v(C) or s.lit(probe, 0, C)}"
+        elif name == "blockm":      # the live object as a block (alone, twice, with fitting neighbours, with a live twin)
+            p, q = 1 + sp % 3, 1 + (sp >> 2) % 3; lay = (sp >> 4) % 6
+            if lay == 0: st = f"blockm 1 1 {me}"
+            elif lay == 1: st = f"blockm 1 2 {me} {me}"
+            elif lay == 2: st = f"blockm 2 1 {me} 1 {me}"
+            elif lay == 3: st = f"blockm 2 2 {me} {s.lit((probe, 1), R, q)} 2 {s.lit((probe, 2), p, C)} {s.lit((probe, 3), p, q)}"
+            elif lay == 4: st = f"blockm 2 2 {s.lit((probe, 3), p, q)} {s.lit((probe, 2), p, C)} 2 {s.lit((probe, 1), R, q)} {me}"
+            else:
+                o_ = s.other(k, (R, C)) or s.lit(probe, R, C); st = f"blockm 2 2 {me} {o_} 2 {o_} {me}"
         else: st = f"{pick(['v_mul_m', 'law_vecmat'])} {s.other_v(R) or s.lit(probe, 0, R)} {me}"
         s.steps.append("o " + st)
     def ask_v(s, k, probe):
@@ -699,7 +746,7 @@ class Session:
             st = f"s_mul_v {x} {me}" if f == "s_mul_v" else f"{f} {me} {x}"
         else:
             if N != 3: st = f"v_norm {me}"
-            else: o_ = s.other_v(3) or s.lit(probe, 0, 3); st = f"{'law_cross' if s.kind != 'wide' else 'v_cross'} {me} {o_}" if sp & 16 else f"v_cross {o_} {me}"
+            else: o_ = s.other_v(3) or s.lit(probe, 0, 3); st = f"{'law_cross' if s.kind not in ('wide', 'tiny') else 'v_cross'} {me} {o_}" if sp & 16 else f"v_cross {o_} {me}"
         s.steps.append("o " + st)
     def undefined(s):
         """closes the session with a call that is not defined on the objects as they are now"""
@@ -712,6 +759,7 @@ class Session:
                                        f"o sub_matrix {me} 0 {C}", f"o m_atc {me} {R} 0", f"o {rng.choice(['m_plus', 'm_op_minus'])} {me} {bad}",
                                        f"o {rng.choice(['m_prod', 'm_op_mul'])} {me} {mtab(rmat(rng, C + 1, 2, 'int'))}",
                                        f"o m_prod_v {me} {flist(rvec(rng, C + 1, 'int'))}", f"o v_mul_m {flist(rvec(rng, R + 1, 'int'))} {me}",
+                                       f"o blockm 1 2 {me} {bad}" if bad.split()[0] != str(R) else f"o blockm 2 1 {me} 1 {bad}",
                                        f"o trace {me}" if R != C else f"m {k} dr {R + 1}"]))
         else:
             k = rng.randrange(len(s.vs)); N = s.vs[k]; me = f"@{k}"; bad = flist(rvec(rng, N + rng.choice([1, 2]), "int"))
@@ -721,7 +769,7 @@ class Session:
 
 
 def life_cases(rng, big, add):
-    def HK(): return rng.choice(["int", "int", "mixed", "dyadic", "wide"])
+    def HK(): return rng.choice(["int", "int", "int", "mixed", "mixed", "dyadic", "dyadic", "wide", "wide", "tiny"])
     # (1) one matrix: the same questions before and after every call (calls that keep the shape twice as often), longer lives too
     for it in range(3000 if big else 170):
         s = Session(rng, HK()); m, n = rng.randint(1, 6), rng.randint(1, 6); k = s.mat(rmat(rng, m, n, s.kind))
@@ -964,6 +1012,16 @@ def generate(rng, tier):
             else: grid[R] = grid[R] + [[br[R], rng.randint(1, 2)]]
             tag = "ragged-grid"
         add(f"block {GR} " + " ".join(f"{len(row)} " + " ".join(blk(b[0], b[1], rng.choice(['int', 'mixed'])) for b in row) for row in grid), "block", tag)
+    # blocks of different character side by side (BLOCK_KINDS): ordinary ones next to blocks that are tiny / huge as a whole, that hold
+    # a single non-zero entry, that are all +0.0 / -0.0; every size of OPERAND_SCALES, i.e. also where squares of the entries underflow
+    # or overflow
+    def wblk(r, c, kind): return f"{r} {c}" + "".join(" " + hx(x) for row in whole_operand(rng, r, c, kind) for x in row)
+    for it in range(4000 if big else 320):
+        GR, GC = rng.choice([1, 1, 2, 2, 2, 3]), rng.choice([1, 2, 2, 2, 3])
+        br = [rng.randint(0 if rng.random() < 0.08 else 1, 3) for _ in range(GR)]; bc = [rng.randint(0 if rng.random() < 0.08 else 1, 3) for _ in range(GC)]
+        if it % 4 == 0: kinds_ = [rng.choice(["one-scale", "single", "tiny", "huge"])] * (GR * GC)      # the whole grid of one character
+        else: kinds_ = [rng.choice(BLOCK_KINDS) for _ in range(GR * GC)]
+        add(f"block {GR} " + " ".join(f"{GC} " + " ".join(wblk(br[R], bc[C], kinds_[R * GC + C]) for C in range(GC)) for R in range(GR)), "block", "valid", "block-magnitudes")
     add("block 0", "block", "empty-grid"); add("block 1 0", "block", "empty-grid"); add("block 2 0 0", "block", "empty-grid")
     add("mat_ctor 0", "constructor", "empty-table")
     # the shape QR_Decomposition builds: {{Identity(i), Zero(i, n-i)}, {Zero(n-i, i), P}}
@@ -1138,6 +1196,22 @@ def generate(rng, tier):
             t3 = hist_vec(rng, rng.randint(1, 6), k, final=3)[0]
             add(f"hist {'law_cross' if k != 'wide' else 'v_cross'} {t3} {hist_vec(rng, rng.randint(1, 6), k, final=3)[0]}", "history", "vector", "cross")
         else: add(f"hist {op} {tu} {tv}" if rng.random() < 0.7 else f"hist {op} {tv} {tu}", "history", "vector", op)
+    # ---- the block constructor on objects with a call history (and on plain tables through the same entry point)
+    for _ in range(1500 if big else 110):
+        GR, GC = rng.choice([1, 1, 2, 2, 3]), rng.choice([1, 2, 2, 3])
+        br = [rng.randint(1, 3) for _ in range(GR)]; bc = [rng.randint(1, 3) for _ in range(GC)]
+        shp = [[(br[R], bc[C]) for C in range(GC)] for R in range(GR)]; tag = "valid"
+        if rng.random() < 0.15 and GR * GC > 1:
+            R, C = rng.randrange(GR), rng.randrange(GC); shp[R][C] = (br[R] + rng.choice([0, 1]), bc[C] + 1); tag = "invalid"
+        def one(sh):
+            k = rng.choice(["int", "mixed", "dyadic", "wide", "tiny"])
+            if rng.random() < 0.6: return hist_mat(rng, rng.randint(1, 5), rng.randint(1, 5), k, final=sh)[0]
+            return f"{mtab(whole_operand(rng, sh[0], sh[1], rng.choice(BLOCK_KINDS)))} 0"
+        add(f"hist blockm {GR} " + " ".join(f"{GC} " + " ".join(one(sh) for sh in row) for row in shp), "history", "block", tag)
+    for _ in range(400 if big else 40):      # the same entry point on fresh tables
+        GR, GC = rng.choice([1, 2, 2, 3]), rng.choice([1, 2, 2, 3])
+        br = [rng.randint(1, 3) for _ in range(GR)]; bc = [rng.randint(1, 3) for _ in range(GC)]
+        add(f"blockm {GR} " + " ".join(f"{GC} " + " ".join(mtab(whole_operand(rng, br[R], bc[C], rng.choice(BLOCK_KINDS))) for C in range(GC)) for R in range(GR)), "block", "valid", "block-magnitudes")
     life_cases(rng, big, add)
     for n in range(1, 7):
         add(f"v_at {flist(rvec(rng, n))} {n - 1}", "vector", "v_at"); add(f"v_at {flist(rvec(rng, n))} {n}", "vector", "v_at"); add(f"v_at {flist(rvec(rng, n))} {n + 3}", "vector", "v_at")
@@ -1172,6 +1246,11 @@ def operands(line):
             GR = r.int(); shp = []
             for _ in range(GR):
                 for _ in range(r.int()): b = r.block(); shp.append((b[0], b[1]))
+            return shp, True
+        if op == "blockm":
+            shp = []
+            for _ in range(r.int()):
+                for _ in range(r.int()): shp.append(shape(r.table()))
             return shp, True
         if op in ("identity", "mat_diag", "mat_fill", "v_scale", "v_div", "s_mul_v", "v_norm", "v_eq", "mat_ctor", "v_at", "v_show"): return [], True
         return [shape(r.table())], True
@@ -1410,9 +1489,15 @@ def _predicates(c, io):
         if guard(len(set(len(row) for row in A)) > 1, "ragged table"): return out
         rr, cc, G = o.mat()
         if (rr, cc) != (shape(A) if A else (0, 0)) or not meq(G, A): bad("definition", "constructor does not reproduce the table")
-    elif op == "block":
+    elif op in ("block", "blockm"):
         GR = r.int(); grid = []
-        for _ in range(GR): grid.append([r.block() for _ in range(r.int())])
+        if op == "block":
+            for _ in range(GR): grid.append([r.block() for _ in range(r.int())])
+        else:
+            for _ in range(GR):
+                row = []
+                for _ in range(r.int()): A = r.table(); row.append((len(A), len(A[0]), A))
+                grid.append(row)
         # definition: a non-empty rectangular grid, all blocks of a grid row have the same number of rows,
         # blocks above one another the same number of columns
         valid = GR > 0 and len(grid[0]) > 0 and all(len(row) == len(grid[0]) for row in grid) and \
@@ -1427,5 +1512,7 @@ def _predicates(c, io):
             for C, b in enumerate(row):
                 for i in range(b[0]):
                     for j in range(b[1]): E[sum(br[:R]) + i][sum(bc[:C]) + j] = b[2][i][j]
-        if not meq(G, E): bad("offsets", "block entries are not at their offsets")
+        if not meq(G, E):
+            w = [(i, j) for i in range(rr) for j in range(cc) if not feq(G[i][j], E[i][j])][0]
+            bad("offsets", f"block entries are not at their offsets: entry {w} of the result is {G[w[0]][w[1]]!r}, the block there has {E[w[0]][w[1]]!r}")
     return out
